@@ -57,9 +57,8 @@ fn any_mtud(e: &Env) -> MtuDiscovery {
         _ => Phase::Complete(vk::instant(vk::any::<u16>() as u32)),
     };
     let peer_max: u16 = vk::any();
-    // transport parameter validation gives max_udp_payload_size >= 1200; ASSUMPTION (stated in the evidence): the configured
-    // minimum MTU does not exceed the peer's limit (always true for the default min_mtu = 1200)
-    vk::assume(peer_max >= 1200 && peer_max >= e.min_mtu);
+    // transport parameter validation gives max_udp_payload_size >= 1200 (it may well be below the configured minimum MTU)
+    vk::assume(peer_max >= 1200);
     let m = MtuDiscovery {
         current_mtu: vk::any(),
         state: Some(EnabledMtuDiscovery { phase, peer_max_udp_payload_size: peer_max, config: config(e) }),
@@ -80,7 +79,7 @@ fn inv(m: &MtuDiscovery, e: &Env) -> bool {
         return false;
     }
     // the C13 floor, and the peer's limit
-    if m.current_mtu < e.min_mtu.min(peer) || m.current_mtu > peer || peer < e.min_mtu {
+    if m.current_mtu < e.min_mtu.min(peer) || m.current_mtu > peer {
         return false;
     }
     match &st.phase {
@@ -138,7 +137,7 @@ fn mtud_new_establishes_inv() {
     let e = any_env();
     let initial: u16 = vk::any();
     vk::assume(initial >= e.min_mtu);
-    let peer: Option<u16> = if vk::any() { let p: u16 = vk::any(); vk::assume(p >= 1200 && p >= e.min_mtu); Some(p) } else { None };
+    let peer: Option<u16> = if vk::any() { let p: u16 = vk::any(); vk::assume(p >= 1200); Some(p) } else { None };
     // without a known peer limit the initial value is bounded by the largest UDP payload
     vk::assume(peer.is_some() || initial <= MAX_UDP_PAYLOAD);
     let m = MtuDiscovery::new(initial, e.min_mtu, peer, config(&e));
@@ -237,7 +236,7 @@ fn mtud_black_hole() {
             let now = vk::instant(vk::any::<u16>() as u32);
             let hit = m.black_hole_detected(now);
             if hit {
-                assert!(m.current_mtu == e.min_mtu, "black hole fallback is the configured minimum");
+                assert!(m.current_mtu == e.min_mtu.min(cur), "black hole fallback is the configured minimum (or the current estimate if that is already smaller)");
                 assert!(m.in_flight_mtu_probe().is_none());
             } else {
                 assert!(m.current_mtu == cur);
@@ -245,6 +244,7 @@ fn mtud_black_hole() {
         }
     }
     assert!(m.current_mtu >= e.min_mtu.min(peer_max(&m)), "estimate below min(min_mtu, peer max_udp_payload_size)");
+    assert!(m.current_mtu <= peer_max(&m), "estimate above the peer's max_udp_payload_size");
     check_inv(&m, &e);
     core::mem::forget(m);
 }
@@ -260,7 +260,8 @@ fn mtud_peer_max_received() {
     vk::assume(!matches!(m.state.as_ref().unwrap().phase, Phase::Searching(_)));
     let cur = m.current_mtu;
     let p: u16 = vk::any();
-    vk::assume(p >= 1200 && p >= e.min_mtu);
+    // the limit only ever tightens (first reception replaces the 65527 default; 0-RTT remembered values are not raised) - assumption
+    vk::assume(p >= 1200 && p <= peer_max(&m));
     m.on_peer_max_udp_payload_size_received(p);
     assert!(m.current_mtu == cur.min(p));
     assert!(peer_max(&m) == p);
